@@ -96,7 +96,7 @@ def name_call(path):
     return m.group(1) if m else path.split('/')[1] if '/' in path else path
 
 
-def run_one(seed, tier):
+def run_one(seed, tier, explicit=None):
     rng = subseed(seed, 'universe')
     prof = U.Profile.draw(rng)
     prof.update(taxonomy=0.9, p_rel=0.8, p_cycle=rng.choice([0.0, 0.0, 0.3]),
@@ -104,7 +104,7 @@ def run_one(seed, tier):
                 p_ili=rng.choice([0.3, 0.6]), ili_pool=12,
                 p_requires=rng.choice([0.0, 0.5, 1.0]),
                 n_bases=rng.choice([1, 2, 2]), p_second_version=0.0)
-    u = U.generate(rng, prof)
+    u = explicit['universe'] if explicit else U.generate(rng, prof)
     prng = subseed(seed, 'plan')
     sim = Sim(u, seed, PROP, [])
     violation = None
@@ -113,6 +113,9 @@ def run_one(seed, tier):
     H = ['0', '1', '2', str(prng.randint(3, 10 ** 6)), str(prng.randint(3, 10 ** 6))]
     if tier == 'thorough':
         H += [str(prng.randint(3, 10 ** 6)) for _ in range(11)]
+    order = ['fr'[i % 2] for i in range(len(H))]
+    if explicit:
+        H, order = explicit['hash_seeds'], explicit['orders']
     try:
         try:
             for r in u['resources']:
@@ -128,7 +131,7 @@ def run_one(seed, tier):
                 env = dict(os.environ)
                 env['PYTHONHASHSEED'] = h
                 env['PYTHONDONTWRITEBYTECODE'] = '1'
-                p = subprocess.run([sys.executable, BATTERY, REPO, d, out, 'fr'[hi % 2]], env=env,
+                p = subprocess.run([sys.executable, BATTERY, REPO, d, out, order[hi]], env=env,
                                    capture_output=True, text=True, timeout=100)
                 if p.returncode != 0:
                     raise Violation(PROP, 'battery-crashed', 'battery process failed under '
@@ -173,14 +176,22 @@ def run_one(seed, tier):
             'cells': [], 'evals': evals, 'nt': nt * len(H), 'known_hits': {},
             'nontrivial': bool(nt),
             'sample': {'hash_seeds': H, 'universe': plan_summary(u, [])['lexicons']},
-            'replay': {'universe': u, 'hash_seeds': H},
+            'replay': {'universe': u,
+                       'hash_seeds': ([violation['detail']['hashseed_a'],
+                                       violation['detail']['hashseed_b']]
+                                      if violation and 'hashseed_a' in (violation.get('detail')
+                                                                        or {}) else H),
+                       'orders': ([order[H.index(violation['detail']['hashseed_a'])],
+                                   order[H.index(violation['detail']['hashseed_b'])]]
+                                  if violation and 'hashseed_a' in (violation.get('detail')
+                                                                    or {}) else order)},
         }
     finally:
         sim.close()
 
 
 def replay(obj):
-    return run_one(obj['seed'], 'quick')
+    return run_one(obj['seed'], 'quick', explicit=obj)
 
 
 def coverage_extra(results):
